@@ -11,11 +11,11 @@ namespace ZV.Bounds
 
 /-- what the caller passed as `bounds` -/
 inductive BoundSpec (F : Type) where
-  | float (b : F)                 -- `type(bounds) is float` (a Python float)
+  | float (b : F)                 -- `isinstance(bounds, float)`: a Python float or numpy.float64
   | str                           -- a string
   | int                           -- a Python int (not bool)
   | other                         -- any other object that cannot be indexed as a pair: bool, None, a numpy scalar
-                                  -- (`np.float64(0.1)[0]` raises IndexError), a sequence is `.seq`
+                                  -- that is not a float subclass (`np.float32(0.1)[0]` raises IndexError)
   | seq (items : List (Option F)) -- list / tuple / array / Series; `none` = an element that is a string
   deriving Repr
 
@@ -97,10 +97,11 @@ def cfPair (iv : Option (F × F)) (p : F) : F × F :=
 /-- IPTW.missing_model / GEstimationSNM.missing_model: only the denominator is clipped -/
 def ipmwRow (iv : Option (F × F)) (n d : F) : F := n / applyB iv d
 
-/-- IPSW.sampling_model: numerator and denominator clipped, then the (generated) sampling weight -/
+/-- IPSW.sampling_model: the denominator is clipped; the numerator only when the weights are stabilized (the
+    unstabilized numerator is the constant 1, not a fitted probability); then the (generated) sampling weight -/
 def ipswRow (gen stab : Bool) (iv : Option (F × F)) (numer denom : F) : F × F × F :=
   let d' := applyB iv denom
-  let n' := applyB iv numer
+  let n' := if stab = true then applyB iv numer else numer
   (d', n', Gen.ipsw_weight gen stab n' d')
 
 end
